@@ -7,6 +7,7 @@ no `return`/`break`/`continue`, no error leaving a catch block of a try that has
 -/
 import KotoVerif.Model.TryEval
 import KotoVerif.Model.TryMech
+import KotoVerif.Lemmas.C04
 
 namespace KotoVerif.Mech
 open KotoVerif.Try
@@ -103,7 +104,7 @@ theorem step_copy {code : Code} {f : Frame} {rest : List Frame} {o : List Nat} {
 theorem step_check {code : Code} {f : Frame} {rest : List Frame} {o : List Nat} {reg off : Nat} {ty : Ty}
     (h : fetchAt code f.fn f.ip = some (.checkType reg ty off)) :
     step code (mk f rest o) =
-      if (regGet f.regs reg).ty = ty then mk { f with ip := f.ip + 1 } rest o
+      if accepts (some ty) (regGet f.regs reg) then mk { f with ip := f.ip + 1 } rest o
       else mk { f with ip := f.ip + 1 + off } rest o := by
   simp [step, mk, h, setTop]
 
@@ -274,8 +275,8 @@ theorem compile_try_inv {cf d op : Nat} {b : E} {cs : List Catch} {fin : Option 
     obtain ⟨bc, h1, cc, h2, fc, h3, h4⟩ := h
     exact ⟨bc, cc, fc, h1, h2, h3, h4.symm⟩
 
-theorem compileCatches_last_inv {comp : E → Option (List Ins)} {reg : Nat} {ty : Option Ty} {x : Nat}
-    {body : E} {cc : List Ins} (h : compileCatches comp reg [(ty, x, body)] = some cc) :
+theorem compileCatches_last_inv {comp : E → Option (List Ins)} {reg : Nat} {x : Nat}
+    {body : E} {cc : List Ins} (h : compileCatches comp reg [(none, x, body)] = some cc) :
     ∃ b, comp body = some b ∧ cc = .copy x reg :: b := by
   simp only [compileCatches, Option.bind_eq_bind, Option.bind_eq_some_iff, Option.pure_def, Option.some.injEq] at h
   obtain ⟨b, h1, h2⟩ := h
@@ -316,8 +317,9 @@ theorem sim_catch_block {code : Code} {P : Prog} {n : Nat}
       compile cf depth op e = some c → CodeAt code f.fn f.ip c →
       Sim code sig σ σ' f rest o (f.ip + c.length) f)
     {body : E} {σ σ' : St} {sig : Sig} {cf depth op : Nat} {b tail : List Ins} {f : Frame}
-    {rest : List Frame} {o : List Nat} {x reg : Nat} {v : Val} {endIp : Nat}
-    (hb : Frag body) (hrun : run guide P n (.ev body) (setLocal σ x v) = (sig, σ'))
+    {rest : List Frame} {o : List Nat} {x reg : Nat} {endIp : Nat}
+    {σb : St} (hσ : σb.out = σ.out)
+    (hb : Frag body) (hrun : run guide P n (.ev body) σb = (sig, σ'))
     (hc : compile cf depth op body = some b)
     (hcode : CodeAt code f.fn f.ip (.copy x reg :: b ++ tail))
     (htail : (tail = [] ∧ endIp = f.ip + 1 + b.length) ∨
@@ -328,8 +330,8 @@ theorem sim_catch_block {code : Code} {P : Prog} {n : Nat}
   let f1 : Frame := { f with ip := f.ip + 1, regs := (x, regGet f.regs reg) :: f.regs }
   have h1 : steps code 1 (mk f rest o) = mk f1 rest o := by rw [steps_one, step_copy hcopy]
   have hsame : SameCtl f f1 := ⟨rfl, rfl, rfl, rfl⟩
-  have hb' := ih body (setLocal σ x v) sig σ' cf depth op b f1 rest o hb hrun hc (codeAt_append_left hrest)
-  have hb'' : Sim code sig σ σ' f1 rest o (f1.ip + b.length) f1 := sim_out_eq (by rfl) hb'
+  have hb' := ih body σb sig σ' cf depth op b f1 rest o hb hrun hc (codeAt_append_left hrest)
+  have hb'' : Sim code sig σ σ' f1 rest o (f1.ip + b.length) f1 := sim_out_eq hσ hb'
   apply sim_prefix0 h1
   apply sim_ref hsame
   cases sig with
@@ -392,7 +394,7 @@ theorem sim_succ_catches (code : Code) (P : Prog) (n : Nat) (ihE : SimEv code P 
     obtain ⟨b, hb, rfl⟩ := compileCatches_last_inv hcc
     simp only [run, accepts, if_true] at h
     have hcode' : CodeAt code f.fn f.ip (Ins.copy x reg :: b ++ []) := by simpa using hcode
-    exact sim_catch_block ihE (hcs (none, x, body) (by simp)) h hb hcode'
+    exact sim_catch_block ihE (bindCatch_out σ none x v) (hcs (none, x, body) (by simp)) h hb hcode'
       (.inl ⟨rfl, by simp; omega⟩)
   | (ty, x, body) :: c2 :: rest2, hl =>
     obtain ⟨b, r, hb, hr, rfl⟩ := compileCatches_cons_inv hcc
@@ -404,16 +406,16 @@ theorem sim_succ_catches (code : Code) (P : Prog) (n : Nat) (ihE : SimEv code P 
       have hcode' : CodeAt code f.fn f.ip (Ins.copy x reg :: b ++ [Ins.jumpFwd r.length]) := by
         have := codeAt_append_left hcode
         simpa using this
-      exact sim_catch_block ihE (hcs (none, x, body) (by simp)) h hb hcode'
+      exact sim_catch_block ihE (bindCatch_out σ none x v) (hcs (none, x, body) (by simp)) h hb hcode'
         (.inr ⟨r.length, rfl, by simp; omega⟩)
     | some t =>
       have hchk : fetchAt code f.fn f.ip = some (.checkType reg t (b.length + 2)) := by
         have : CodeAt code f.fn f.ip (Ins.checkType reg t (b.length + 2) ::
             ((Ins.copy x reg :: b ++ [Ins.jumpFwd r.length]) ++ r)) := by simpa using hcode
         exact codeAt_head this
-      by_cases hacc : v.ty = t
+      by_cases hacc : accepts (some t) v = true
       · -- accepted: fall through to the block
-        simp only [accepts, hacc, decide_true, if_true] at h
+        simp only [hacc, if_true] at h
         let f1 : Frame := { f with ip := f.ip + 1 }
         have h1 : steps code 1 (mk f rest o) = mk f1 rest o := by
           rw [steps_one, step_check hchk, hreg, if_pos hacc]
@@ -424,10 +426,10 @@ theorem sim_succ_catches (code : Code) (P : Prog) (n : Nat) (ihE : SimEv code P 
           simpa using this
         apply sim_prefix0 h1
         apply sim_ref (g := f1) ⟨rfl, rfl, rfl, rfl⟩
-        exact sim_catch_block ihE (hcs (some t, x, body) (by simp)) h hb hcode1
+        exact sim_catch_block ihE (bindCatch_out σ (some t) x v) (hcs (some t, x, body) (by simp)) h hb hcode1
           (.inr ⟨r.length, rfl, by simp [f1]; omega⟩)
       · -- rejected: jump to the next block
-        have hacc' : accepts (some t) v = false := by simp [accepts, hacc]
+        have hacc' : accepts (some t) v = false := by simpa using hacc
         simp only [hacc', Bool.false_eq_true, if_false] at h
         let f1 : Frame := { f with ip := f.ip + 1 + (b.length + 2) }
         have h1 : steps code 1 (mk f rest o) = mk f1 rest o := by
